@@ -29,7 +29,7 @@ _th = {}
 def required(tier):
     return ['bubble-residual', 'dew-residual', 'normalised', 'inverse', 'bracket', 'single-component', 'permutation', 'scale', 'pkg:ideal', 'pkg:dortmund',
             # coverage audit
-            'pkg:unifac', 'pkg:pcf', 'call-form', 'call-form:list', 'call-form:tuple', 'stream-level', 'stream-level:default', 'stream-level:IDs', 'single:scaled', 'single:call-form', 'single:permuted',
+            'pkg:unifac', 'pkg:pcf', 'call-form', 'call-form:list', 'call-form:tuple', 'stream-level', 'stream-level:default', 'stream-level:IDs', 'single:scaled', 'single:call-form', 'single:permuted', 'single:saturation-residual', 'single:inverse',
             'permutation:random', 'subset-of-package', 'fresh-instance', 'cache']
 
 
@@ -168,6 +168,21 @@ def run_case(case, rec):
             rec.check(r[0] == exp, 'single-component', name, f'single component {c.ID}: {name} gives {r[0]!r} but the saturation value is {exp!r}')
             comp = np.asarray(r[1], float)
             rec.check(abs(comp.sum() - 1) <= 1e-12 and comp[k] == comp.sum(), 'single-component', name + '/composition', f'single component {c.ID}: returned composition {comp.tolist()}')
+        # independent of Chemical.Tsat: the returned temperature must satisfy Psat(T) = P to the solver's own resolution (1e-6 K, 1e-2 Pa),
+        # and solving for T at the pressure obtained from T0 must give T0 back (statement: inverse relation, single-component limit)
+        lim = c.Psat.T_limits.get(c.Psat.method) if getattr(c.Psat, 'method', None) else None
+        inside = lambda T: T <= c.Tc and (lim is None or lim[0] <= T <= lim[1])
+        for name, r in (('Ty', Tb), ('Tx', Td)):
+            if r is None or not (P0 <= c.Pc) or not inside(r[0]): continue
+            rec.hit('single:saturation-residual')
+            res = c.Psat(r[0]) - P0
+            rec.check(abs(res) <= 1e-6 * P0 + 0.1, 'single-component', name + '/saturation-residual', f'single component {c.ID}: {name} at P={P0} gives T={r[0]!r} where Psat(T) - P = {res!r} Pa', residual=abs(res) / P0)
+        for name, r, solver in (('bubble', Pb, lambda P: bp.solve_Ty(z.copy(), P)), ('dew', Pd, lambda P: dp.solve_Tx(z.copy(), P))):
+            if r is None or not inside(T0) or not (5e3 <= r[0] <= 3e6) or r[0] > c.Pc: continue
+            back = call('inverse:single:' + name, lambda: solver(r[0]))
+            if back is None: continue
+            rec.hit('single:inverse')
+            rec.check(abs(back[0] - T0) <= 1e-4, 'inverse', f'{name}/single-component', f'single component {c.ID}: T at the {name} pressure {r[0]!r} obtained from T={T0} is {back[0]!r}', residual=abs(back[0] - T0))
         try: single_extra(case, rec, th, chems, bp, dp, z, T0, P0, k)
         except Exception as e: rec.exception('harness', e, what=f'harness error in the additional single-component clauses: {type(e).__name__}: {e}')
         rec.mark_nontrivial(case_hash(case)); return
